@@ -54,10 +54,11 @@ def runs(draw, tier):
     return {"state": sc, "rows": rows, "pbs": pbs, "nbs": nbs,
             "k": k, "lr": draw(st.floats(1e-3, 1.0, allow_nan=False, width=64)), "epochs": draw(st.integers(1, 3)),
             "gamma": draw(st.one_of(st.none(), st.floats(0.1, 0.9, allow_nan=False, width=64))), "torch_seed": draw(st.integers(0, 2 ** 31 - 1)),
+            "sched_kind": draw(st.sampled_from(["step1", "step1", "exp", "step2"])),
             "se": draw(st.sampled_from([1, 1, 0, 2, 3, 5])),
             # staged training: a second fit() on the same model with another learning rate, re-using the caller's optimizer_args dict
             "stage2_lr": draw(st.one_of(st.none(), st.floats(1e-3, 1.0, allow_nan=False, width=64))),
-            "opt_args": draw(st.sampled_from(["none", "empty_dict", "momentum0"])),
+            "opt_args": draw(st.sampled_from(["none", "empty_dict", "momentum0", "momentum", "wd", "momentum_wd"])),
             "stage3_lr": draw(st.one_of(st.none(), st.none(), st.floats(1e-3, 1.0, allow_nan=False, width=64))),
             "stage2_same_lr": draw(st.booleans()), "reinit_between": draw(st.integers(0, 2)) == 0}
 
@@ -133,16 +134,23 @@ def check(case):
     kw = dict(epochs=se + case["epochs"] - 1, starting_epoch=se, pos_batch_size=case["pbs"], neg_batch_size=case["nbs"], k=case["k"], lr=case["lr"],
               optimizer=RecSGD, callbacks=[cb, guard])
     if case["gamma"] is not None:
-        kw.update(scheduler=torch.optim.lr_scheduler.StepLR, scheduler_args={"step_size": 1, "gamma": case["gamma"]})
+        sk = case.get("sched_kind", "step1")
+        if sk == "exp":
+            kw.update(scheduler=torch.optim.lr_scheduler.ExponentialLR, scheduler_args={"gamma": case["gamma"]})
+        else:
+            kw.update(scheduler=torch.optim.lr_scheduler.StepLR, scheduler_args={"step_size": 2 if sk == "step2" else 1, "gamma": case["gamma"]})
     if t != "positive":
         kw["input_bases"] = bases
-    oargs = {"none": None, "empty_dict": {}, "momentum0": {"momentum": 0.0}}[case.get("opt_args", "none")]
+    oargs = {"none": None, "empty_dict": {}, "momentum0": {"momentum": 0.0}, "momentum": {"momentum": 0.9}, "wd": {"weight_decay": 0.05},
+             "momentum_wd": {"momentum": 0.5, "weight_decay": 0.01}}[case.get("opt_args", "none")]
+    mom, wd = (oargs or {}).get("momentum", 0.0), (oargs or {}).get("weight_decay", 0.0)
     oargs_keep = None if oargs is None else dict(oargs)
     if oargs is not None:
         kw["optimizer_args"] = oargs
     state.fit(data, **kw)
     lr_of_step = [case["lr"]] * len(log["steps"])
     stage1_steps = len(log["steps"])
+    stage_starts = {0, stage1_steps}
     stage1_epochs = len(log["epochs"])
     if case.get("stage2_lr") is not None and case.get("stage2_same_lr"):
         case = dict(case, stage2_lr=case["lr"])          # an identical optimizer configuration in the second fit()
@@ -157,6 +165,7 @@ def check(case):
         lr_of_step += [case["stage2_lr"]] * (len(log["steps"]) - stage1_steps)
         if case.get("stage3_lr") is not None and not diverged[0]:
             n2 = len(log["steps"])
+            stage_starts.add(n2)
             state.fit(data, **dict(kw, lr=case["stage3_lr"], epochs=1, starting_epoch=1))      # third fit() call on the same objects
             lr_of_step += [case["stage3_lr"]] * (len(log["steps"]) - n2)
     if oargs is not None:
@@ -184,7 +193,8 @@ def check(case):
         ep = stp["epoch"]
         stage2 = ti >= stage1_steps
         ep_in_stage = 1 if stage2 else ep        # stages 2 and 3 are single-epoch fits
-        want_lr = lr_of_step[ti] * (case["gamma"] ** (ep_in_stage - 1) if case["gamma"] is not None else 1.0)
+        n_decays = (ep_in_stage - 1) // 2 if case.get("sched_kind") == "step2" else (ep_in_stage - 1)
+        want_lr = lr_of_step[ti] * (case["gamma"] ** n_decays if case["gamma"] is not None else 1.0)
         require(abs(stp["lr"] - want_lr) <= 1e-12 * want_lr, "lr-schedule",
                 f"step {ti} (epoch #{ep}): learning rate {stp['lr']} but expected {want_lr} (scheduler must advance exactly once per epoch)")
         require(bt["k"] == case["k"] and ch["k"] == case["k"], "k", "wrong number of Gibbs steps requested")
@@ -195,13 +205,20 @@ def check(case):
             prev = steps[ti - 1]["after"]
             require(all(torch.equal(prev[net][pn], stp["before"][net][pn]) for net in nets for pn in prev[net]), "params-changed-between-steps",
                     "parameters changed outside optimizer.step()")
-        # SGD: theta' = theta - lr * grad, exactly once
+        # SGD: theta' = theta - lr * grad, exactly once (with the documented momentum / weight-decay recursion when optimizer_args asks for it;
+        # every fit() builds a fresh optimizer, so momentum buffers start empty at each stage)
+        if ti in stage_starts:
+            mbuf = {}
         for net in nets:
             for pn, g in stp["grads"][net].items():
                 require(g is not None, "grad-missing", f"{net}.{pn} received no gradient")
-                exp = stp["before"][net][pn] - stp["lr"] * g
-                require(bool(torch.all((stp["after"][net][pn] - exp).abs() <= 1e-12 * (exp.abs() + stp["lr"] * g.abs()) + 1e-300)), "sgd-update",
-                        f"{net}.{pn} did not move by exactly -lr*grad at step {ti}")
+                d_ = g + wd * stp["before"][net][pn]
+                if mom:
+                    mbuf[(net, pn)] = d_.clone() if (net, pn) not in mbuf else mom * mbuf[(net, pn)] + d_
+                    d_ = mbuf[(net, pn)]
+                exp = stp["before"][net][pn] - stp["lr"] * d_
+                require(bool(torch.all((stp["after"][net][pn] - exp).abs() <= 1e-12 * (stp["before"][net][pn].abs() + stp["lr"] * d_.abs()) + 1e-300)), "sgd-update",
+                        f"{net}.{pn} did not move by exactly -lr*grad at step {ti} (optimizer_args={oargs})")
         # reference gradient at the snapshot parameters
         sc_t = snapshot_case(sc, stp["before"])
         brows = []
@@ -231,7 +248,7 @@ def check(case):
     nt = (nbs != case["pbs"]) and tail and case["k"] >= 1 and followed >= 2 and (t == "positive" or rotated_seen) and gen.all_biases_nonzero(sc)
     return {"nontrivial": nt, "excluded": excluded,
             "labels": [f"type={t}"] + (["neg!=pos"] if nbs != case["pbs"] else []) + (["tail_batch"] if tail else []) + ([f"k={case['k']}"]) +
-                      (["scheduler"] if case["gamma"] is not None else []) + ([f"starting_epoch={se}"] if se != 1 else []) + (["multi_epoch"] if case["epochs"] > 1 else []) + (["two_stage"] if case.get("stage2_lr") is not None else []) + ["opt_args=" + case.get("opt_args", "none")]}
+                      (["scheduler=" + case.get("sched_kind", "step1")] if case["gamma"] is not None else []) + ([f"starting_epoch={se}"] if se != 1 else []) + (["multi_epoch"] if case["epochs"] > 1 else []) + (["two_stage"] if case.get("stage2_lr") is not None else []) + ["opt_args=" + case.get("opt_args", "none")]}
 
 
 SUBCHECKS = [Sub("cd_update", check, strategy=lambda tier: runs(tier), quick=320, thorough=6000)]
